@@ -74,9 +74,10 @@ def run(ctx, model_ok):
                             "neither — e.g. scipy / numpy conversions of already validated data, the low-magnetization warning), under C11's `add` validates before it links, and with two things the "
                             "analysis does not examine: the VALUE a per-element restore assigns (`child._parent = self`: right because removed children had this parent, C11 invariant) and that "
                             "`self._children = [...]` rebinds (an in-place edit would be a call the analysis does not know and is flagged); the callargs stream compares the whole forest before / after "
-                            "72 junk assignments per run. NOT covered by the form: the KIND of error (`c.children = 5` / None / object(): foreign TypeError from `self.add(*5)`, state kept) and "
-                            "silent acceptance (`c.collections = 5` or `[1, 'abc']` is accepted and drops every sub-collection; `c.sensors = [a_source]` drops the sensors; `c.sources = [c]` is "
-                            "accepted): observed, reported",
+                            "72 junk assignments per run. The values of the two setters repaired by 045b334 are modelled (childrenSetter / collectionsSetter, `collval` rows: error kind or the identities of the resulting "
+                            "children): children_accepts_iff_documented, children_rejects_non_sequences_with_library_error, collections_setter_refuses_non_objects; still accepted beyond the "
+                            "documented format: sources / sensors given to `collections` are dropped without a word (collections_setter_drops_other_objects), `c.sensors = [a_source]` drops the "
+                            "sensors, `c.sources = [c]` is accepted (sources / sensors setters: values not modelled here, C11's Forest model has them): observed",
                             "constructor path = setter path: by theorem for the regenerated table of every __init__ (ctor_args_keep_their_names, ctor_args_reach_their_setters, "
                             "ctor_position_orientation_use_setter_validators); the padding logic of _init_position_orientation differs from the two setters' (subject of C09); "
                             "TriangularMesh vertices / faces have no setter (_input_check, foreign IndexError for bad face indices: observed)",
